@@ -2,6 +2,8 @@ import PoaVerif.Model.Spec
 import PoaVerif.Lemmas.EndBlock
 import PoaVerif.Lemmas.RunRefine
 import PoaVerif.Lemmas.GenesisPre
+import PoaVerif.Lemmas.Quiet
+import PoaVerif.Witness.D1
 import PoaVerif.Witness.D1
 import PoaVerif.Witness.D6
 /-
@@ -86,6 +88,34 @@ theorem c02_partial_init (g : Genesis) (u : List (Nat × Int)) (s : App) (c : CS
 theorem c02_genesis (g : Genesis) (h : g.wf = true) :
     ∃ u s c, App.initChain g = .ok (u, s) ∧ Comet.applyChangeSet [] u = .ok c ∧ Agree c s :=
   initChain_wf g h
+
+/-! ### the envelope theorem for power adjustments: an inductive invariant over whole histories
+
+  `Lemmas/Quiet.lean`: `M` (the state during a block of a chain all of whose validators are bonded, un-jailed and
+  alive) implies the hypotheses of the refinement theorems; it is preserved by every successful SetPower that fires
+  neither D1 nor D3 (`M_setPower`, through the exact shape of the handler's result) and by every transaction that
+  leaves the state unchanged; the EndBlocker takes it to `G` (`endBlock_G`: nothing but the power table and the recorded
+  total changes), x/slashing's BeginBlocker with present votes and PoA's BeginBlocker (which prunes the entries of the
+  last block's SetPowers) take `G` to `M` again; InitChain of every well-formed genesis ends in `G` (`genesis_G`). -/
+
+/-- **C02 and C04 for every power-adjustment history** (`QuietHistory`, decidable form `quietRunB` evaluated by the
+    driver as `QUIET` lines): any well-formed genesis, any number of blocks in which every validator votes, no evidence
+    arrives, and every transaction either leaves the state unchanged (all rejected transactions, bank sends) or is the
+    admin's SetPower of an existing validator that was not re-weighted earlier in the block (no D3) to a power at which
+    it owns no index entry (no D1), the index staying within `MaxValidators` (no D7) and the powers within CometBFT's
+    maximum.  Then the run reaches its end — no block halts, CometBFT refuses no update list — and CometBFT's set equals
+    the chain's own after InitChain and after every block.  No hypothesis about `Pre`: it is derived. -/
+theorem c02_power_adjustments (g : Genesis) (hw : g.wf = true) (bs : List Block) (hq : QuietHistory g bs) :
+    ∃ first steps, run genEnv g bs = some (first, steps, RunEnd.done) ∧ steps.length = bs.length ∧
+      Agree first.comet first.app ∧ ∀ st ∈ steps, Agree st.comet st.app :=
+  quiet_history g hw bs hq
+
+/-- non-vacuity: the first three blocks of the D1 witness history (idle; SetPower 10 → 11 units; idle) are quiet … -/
+example : quietBlockB Witness.D1.s0 Witness.D1.c0 Witness.D1.b1 = true := by decide
+example : quietBlockB Witness.D1.s1 Witness.D1.c1 Witness.D1.b2 = true := by decide
+example : quietBlockB Witness.D1.s2 Witness.D1.c2 Witness.D1.b3 = true := by decide
+/-- … and the block that sets the validator back to 10 units, where it still owns an index entry (D1), is not -/
+example : quietBlockB Witness.D1.s3 Witness.D1.c3 Witness.D1.b4 = false := by decide
 
 /-- non-vacuity: the first two blocks of the D1 witness history (an idle block, then SetPower 10 → 11 units of a
     genesis validator) lie inside `Pre`, as does its genesis -/
